@@ -8,6 +8,7 @@ clocks, randomness or OS entropy by h2 itself a violation.
 import hashlib
 import json
 import os
+import re
 import subprocess
 import sys
 import time
@@ -15,6 +16,8 @@ import time
 from . import runner
 
 TRIPS = []
+# hpack 4.2 puts the repr of a memoryview (an address) into one of its messages, which h2 forwards: masked
+_ADDR = re.compile(r'0x[0-9a-fA-F]+')
 
 
 def install_tripwires():
@@ -43,7 +46,8 @@ def digest_world(w):
     h = hashlib.sha256()
     for ep in ('c', 's'):
         for s in w.eps[ep].log:
-            h.update(repr((s.ep, s.kind, s.op, s.ok, (s.exc or {}).get('type'), (s.exc or {}).get('code'))).encode())
+            h.update(repr((s.ep, s.kind, s.op, s.ok, (s.exc or {}).get('type'), (s.exc or {}).get('code'),
+                           _ADDR.sub('0x?', (s.exc or {}).get('msg') or ''))).encode())
             h.update(s.out)
             if s.events is not None:
                 for e in s.events:
@@ -119,7 +123,10 @@ def replay(path):
     w = run_trace(dec(doc['cfg']), dec(doc['events']), [])
     d0 = digest_world(w)
     bad = list(TRIPS)
-    for hs in (3, 99):
+    # the hash seeds under which the batch run saw the difference first: a dependence on set/dict order shows
+    # under some seeds only (any seed that disagrees with this process is a violation)
+    seeds = [int(x) for x in doc.get('hash_seeds', []) if str(x).isdigit()]
+    for hs in seeds + [x for x in (3, 99) if x not in seeds]:
         d, trips = fresh_digest(doc['cfg'], doc['events'], hs)
         if d != d0 or trips:
             bad.append('PYTHONHASHSEED=%s digest %s != %s %s' % (hs, d, d0, trips))
@@ -186,6 +193,7 @@ def run_check(tier, base_seed, quiet=False):
         with open(p2, 'w') as f:
             json.dump({'format': 1, 'property': 'C28', 'profile': r['profile'], 'seed': r['seed'], 'run': r['idx'],
                        'signature': list(sig), 'cfg': r['cfg'], 'events': r['events'], 'detail': [x[1] for x in lst][:3],
+                       'hash_seeds': sorted(set(x[0] for x in lst if x[0] != 'self')),
                        'h2_tree': runner.tree_id()}, f)
         bad, _ = replay(p2)
         if bad:
